@@ -108,6 +108,7 @@ func (v *SliceSchema) validate(ctx *p.SchemaCtx) {
 	for idx := 0; idx < refVal.Len(); idx++ {
 		item := refVal.Index(idx).Addr().Interface()
 		k := fmt.Sprintf("[%d]", idx)
+		subCtx.Data = item
 		subCtx.ValPtr = item
 		subCtx.Path.Push(&k)
 		subCtx.Exit = false
